@@ -74,5 +74,5 @@ func gen(r *hv.Rng, i int, tier string) (string, hv.Val) {
 }
 
 func main() {
-	hv.Main(&hv.Spec{Prop: "C43", Gen: gen, Impl: impl, NQuick: 257 + 65536 + 30000, NThorough: 257 + 65536 + 2000000})
+	hv.Main(&hv.Spec{Prop: "C43", Gen: gen, Impl: impl, NQuick: 257 + 65536 + 30000, NThorough: 257 + 65536 + 400000})
 }
